@@ -1963,6 +1963,7 @@ rawrep_case(long idx, vf_rng *r)
 	dev_start(&dev, front, back);
 
 	nframes = (int) vf_range(r, 8, 20);
+	int extra_last = 0;
 	for (int i = 0; i <= nframes; i++) {
 		// a request so that the peer learns the routing word of the requester
 		nng_msg *m, *g = NULL;
@@ -2060,12 +2061,25 @@ rawrep_case(long idx, vf_rng *r)
 		if (route_ok) {
 			size_t hl = (size_t) (e - 1) * 4, bl = f.len - (size_t) e * 4;
 			if (rv != 0) {
+				// A malformed reply sent earlier disconnects this peer
+				// whenever the device gets to read it; data sent after it on
+				// the same connection is then legitimately lost.  Only a
+				// loss on a connection that is still open is judged.
 				uint8_t tmp[FRAME_MAX + 64];
-				long    pr = peer_recv(fd, tmp, sizeof(tmp), 50);
-				printf("DIAG reply-lost: i=%d words=%d P=%08x conn=%s back pipes +%d -%d front pipes +%d -%d\n", i, e, P, pr == -2 ? "closed-by-device" : pr == -1 ? "open-idle" : "open-data", atomic_load(&pcb->adds), atomic_load(&pcb->rems), atomic_load(&pcf->adds), atomic_load(&pcf->rems));
-				dump_sock_stats(back);
-				dump_sock_stats(front);
-				vf_violation("C13/reply-lost", "%s: a well-formed reply with %d words (first = the requester's routing word) was not delivered: %s", ctx, e, nng_strerror(rv));
+				long    pr = peer_recv(fd, tmp, sizeof(tmp), 100);
+				if (pr == -2) {
+					vf_stat("raw_reply_lost_with_kicked_connection", 1);
+					if (last && extra_last < 3) {
+						// the closing well-formed exchange must be seen
+						extra_last++;
+						nframes++;
+					}
+				} else {
+					printf("DIAG reply-lost: i=%d words=%d P=%08x conn=%s back pipes +%d -%d front pipes +%d -%d\n", i, e, P, pr == -1 ? "open-idle" : "open-data", atomic_load(&pcb->adds), atomic_load(&pcb->rems), atomic_load(&pcf->adds), atomic_load(&pcf->rems));
+					dump_sock_stats(back);
+					dump_sock_stats(front);
+					vf_violation("C13/reply-lost", "%s: a well-formed reply with %d words (first = the requester's routing word) was not delivered although the connection stayed open: %s", ctx, e, nng_strerror(rv));
+				}
 			} else if (nng_msg_header_len(g) != hl || memcmp(nng_msg_header(g), f.buf + 4, hl) != 0 || nng_msg_len(g) != bl || memcmp(nng_msg_body(g), f.buf + (size_t) e * 4, bl) != 0) {
 				vf_violation("C13/backtrace-unwind", "%s: reply with %d words: the requester got header %zu / body %zu bytes, expected %zu / %zu with the first word popped", ctx, e, nng_msg_header_len(g), nng_msg_len(g), hl, bl);
 			} else {
